@@ -8,6 +8,7 @@ import (
 	"io"
 
 	biscuit "github.com/biscuit-auth/biscuit-go/v2"
+	"github.com/biscuit-auth/biscuit-go/v2/datalog"
 
 	"verif/harness/ast"
 	"verif/harness/core"
@@ -20,8 +21,103 @@ import (
 // Oracle: sealed / unsealed twin comparison over the panel + error presence for Append / Seal
 // on sealed tokens + R3 chain verdict on mutated sealed envelopes.
 
+// c09CustomSymbols: a token built over a custom base symbol table (WithSymbols), attenuated,
+// then sealed: the sealed token used IN MEMORY prints and authorizes like its source, and both
+// survive a round trip through an Unmarshaler that knows the base table.
+func c09CustomSymbols(c *core.C) {
+	r := c.R
+	base := &datalog.SymbolTable{}
+	names := []string{"tenant", "acme", "role", "auditor"}
+	for _, n := range names[:2+r.Intn(3)] {
+		base.Insert(n)
+	}
+	_, priv := lib.KeyPair(c.Seed, fmt.Sprintf("c09-custom-%d", c.Idx))
+	pub := priv.Public().(ed25519.PublicKey)
+	rng := lib.NewDetRand(c.Seed, fmt.Sprintf("c09-custom-rng-%d", c.Idx))
+	var src, sealed *biscuit.Biscuit
+	var err error
+	pi := lib.Try(func() {
+		bld := biscuit.NewBuilder(priv, biscuit.WithRNG(rng), biscuit.WithSymbols(base))
+		_ = bld.AddAuthorityFact(ast.P("tenant", ast.Str("acme")).LibFact())
+		_ = bld.AddAuthorityFact(ast.P("role", ast.Str("auditor"), ast.Str("fresh_one")).LibFact())
+		_ = bld.AddAuthorityCheck(ast.Check{Queries: []ast.Rule{{Head: ast.P("query"), Body: []ast.Pred{ast.P("tenant", ast.Var("t"))}}}}.Lib())
+		if src, err = bld.Build(); err != nil {
+			return
+		}
+		for k, n := 0, r.Intn(3); k < n; k++ {
+			bb := src.CreateBlock()
+			_ = bb.AddFact(ast.P(fmt.Sprintf("added_%d", k), ast.Str(fmt.Sprintf("fresh_%d", k)), ast.Str("acme")).LibFact())
+			_ = bb.AddCheck(ast.Check{Queries: []ast.Rule{{Head: ast.P("query"), Body: []ast.Pred{ast.P("role", ast.Str("auditor"), ast.Var("x"))}}}}.Lib())
+			if src, err = src.Append(rng, bb.Build()); err != nil {
+				return
+			}
+		}
+		sealed, err = src.Seal(rng)
+	})
+	if pi != nil {
+		c.Violate("custom-symbols-panic/"+pi.Site, pi.Msg, nil)
+		return
+	}
+	if err != nil {
+		c.Violate("derivation-refused/custom-symbols", err.Error(), nil)
+		return
+	}
+	ask := func(p ast.Pred) []ast.Rule { return []ast.Rule{{Head: ast.P("query"), Body: []ast.Pred{p}}} }
+	auths := []ast.AuthContent{
+		{Policies: []ast.Policy{allowAll}},
+		{Policies: []ast.Policy{{Allow: true, Queries: ask(ast.P("tenant", ast.Str("acme")))}}},
+		{Checks: []ast.Check{{Queries: ask(ast.P("role", ast.Str("auditor"), ast.Str("fresh_one")))}}, Policies: []ast.Policy{allowAll}},
+		{Checks: []ast.Check{{Queries: ask(ast.P("tenant", ast.Str("other")))}}, Policies: []ast.Policy{allowAll}},
+	}
+	probes := []ast.Rule{{Head: ast.P("probe_tenant", ast.Var("t")), Body: []ast.Pred{ast.P("tenant", ast.Var("t"))}}, {Head: ast.P("probe_role", ast.Var("a"), ast.Var("b")), Body: []ast.Pred{ast.P("role", ast.Var("a"), ast.Var("b"))}}}
+	view := func(b *biscuit.Biscuit) string {
+		out := fmt.Sprint(b.Code())
+		for _, a := range auths {
+			out += " | " + lib.Observe(b, pub, a, probes).Key()
+		}
+		return out
+	}
+	reload := func(b *biscuit.Biscuit) (*biscuit.Biscuit, error) {
+		ser, err := b.Serialize()
+		if err != nil {
+			return nil, err
+		}
+		return (&biscuit.Unmarshaler{Symbols: base.Clone()}).Unmarshal(ser)
+	}
+	var vs, vsealed, vsr, vsealedr string
+	pi = lib.Try(func() {
+		vs, vsealed = view(src), view(sealed)
+		if b, err := reload(src); err == nil {
+			vsr = view(b)
+		} else {
+			vsr = "reload: " + err.Error()
+		}
+		if b, err := reload(sealed); err == nil {
+			vsealedr = view(b)
+		} else {
+			vsealedr = "reload: " + err.Error()
+		}
+	})
+	c.Eval(4)
+	if pi != nil {
+		c.Violate("custom-symbols-panic/"+pi.Site, pi.Msg, nil)
+		return
+	}
+	desc := map[string]any{"base_symbols": len(*base), "source": vs, "sealed": vsealed, "source_reloaded": vsr, "sealed_reloaded": vsealedr}
+	if vsealed != vs {
+		c.Violate("sealing-changes-behaviour/custom-base-symbols/in-memory", "the sealed token in memory prints or authorizes differently from its source", desc)
+	}
+	if vsr != vs || vsealedr != vs {
+		c.Violate("sealing-changes-behaviour/custom-base-symbols/re-loaded", "after a round trip through an Unmarshaler with the base table the source or the sealed token differs", desc)
+	}
+	c.Count("custom_base_symbol_tokens", 1)
+}
+
 func c09Run(c *core.C) {
 	r := c.R
+	if c.Idx%4 == 1 {
+		c09CustomSymbols(c)
+	}
 	f := newFamily(r, c.Seed, fmt.Sprintf("c09-%d", c.Idx), 4)
 	mk := func() ast.Block {
 		return f.U.Block(r, gen.BlockOpts{MaxFacts: 4, MaxRules: 1, MaxChecks: 2, Rule: gen.RuleOpts{PConst: 0.35, PExpr: 0.3, MaxBody: 2}})
@@ -323,6 +419,24 @@ func c17Run(c *core.C) {
 			if len(ids) != len(l.T.Blocks) {
 				c.Violate("revocation-id-count", fmt.Sprintf("%d identifiers for %d blocks", len(ids), len(l.T.Blocks)), desc)
 				continue
+			}
+			// each identifier is a value of its own: a caller that appends a namespace to one of
+			// them (append(id, ...)) changes neither its neighbours nor the token
+			if got := l.T.B.RevocationIds(); len(got) == len(ids) {
+				before := make([]string, len(got))
+				for k := range got {
+					before[k] = hex.EncodeToString(got[k])
+				}
+				for k := range got {
+					_ = append(got[k], 0xEE, 0xEE, 0xEE)
+				}
+				again := l.T.B.RevocationIds()
+				for k := range got {
+					if hex.EncodeToString(got[k]) != before[k] || (k < len(again) && hex.EncodeToString(again[k]) != before[k]) {
+						c.Violate("revocation-ids-share-memory", fmt.Sprintf("appending to a returned identifier changed identifier %d", k), desc)
+						break
+					}
+				}
 			}
 			if l.T.B.BlockCount()+1 != len(ids) {
 				c.Violate("revocation-id-count", fmt.Sprintf("%d identifiers, BlockCount()+1 = %d", len(ids), l.T.B.BlockCount()+1), desc)
